@@ -1131,10 +1131,14 @@ def _target_decoy_routing(ctx):
     # is_decoy: False for target files, True for decoy files - read off the
     # readers handed to the merging reader
     mr = [n for n in ast.walk(r.node) if isinstance(n, ast.Call)
-          and callee_is(prog, r, n, "MergedTabularDataReader") and n.args]
+          and callee_is(prog, r, n, "MergedTabularDataReader")]
     ctx.require(len(mr) == 1, f"{r.qual}: merging reader not found")
+    mrb = prog.bind(prog.func(
+        "mokapot.streaming.MergedTabularDataReader.__init__"), mr[0])
+    ctx.require(mrb.get("readers") is not None, f"{r.qual}: merging reader "
+                "built without readers")
     flags = []
-    for kind, part in concat_parts(T3.of(mr[0].args[0])):
+    for kind, part in concat_parts(T3.of(mrb["readers"])):
         ent = {"flag": None, "pattern": None, "column": None}
         if kind == "splice" and part[0] == "comp" and len(part[3]) == 1:
             files = part[3][0][1]
